@@ -15,7 +15,16 @@ Structure of the argument (DESIGN.md §3 C13):
   * `cpq_batch_linearizable`: for every heap state and every batch there is an order of the batch's
     operations under which the sequential spec (multiset with pop-max) gives exactly the observed results and
     final contents.  Concatenating the per-batch orders gives the linearization of a whole history.
-  * `heapify_heap`, `reheap_heap`, `cpq_batch_conserves`, `cpq_throw_isolated`: the ingredients.
+  * `heapify_heap`, `reheap_heap`, `cpq_batch_conserves`, `cpq_throw_isolated_partial`: the ingredients.
+  * The exception clause of the property holds only for a throwing copy inside a push.  A throwing element
+    ASSIGNMENT inside a pop is modelled as the code is written (`Op.pop true`; `guarded`, regenerated from the
+    source, says whether that assignment is inside a try block): the exception leaves `handle_operations` in
+    the handler thread.  All positive theorems therefore assume that no pop's assignment throws
+    (`NoThrowingPop` / `popThrows = false`); `cpq_pop_throw_not_isolated` and `aggregator_pop_throw_witness`
+    are the closed counterexamples (known finding `pop-assignment-throw-locks-queue`).
+  * NOT proved in Lean (covered by the checked correspondence only): that the handler steps of `Agg` compute
+    `handleIdx` of the grabbed batch, that the `next` fields agree with the lists `plist/rem/dfr`, and the
+    composition of the per-batch orders into one linearization of a whole concurrent history.
 -/
 import TbbVerif.Proofs.C13.Lin
 import TbbVerif.Proofs.C13.Agg
@@ -41,15 +50,6 @@ theorem reheap_heap (h : Heap) (hm : h.mark ≤ h.data.length) (hl : 0 < h.data.
     ((reheap h).data ++ [get h.data 0]).Perm h.data ∧ (∀ y ∈ h.data.take h.mark, y ≤ get h.data 0) := by
   refine ⟨reheap_isHeap h hm hl hh, ?_, reheap_perm h hm hl, hh.mem_take_le hm⟩
   rw [mark_reheap h hm hl, length_reheap h hm hl]; omega
-
-/-- no pop of the batch has a throwing element assignment (see `cpq_pop_throw_not_isolated` for what the code
-does otherwise) -/
-def NoThrowingPop (ops : List Op) : Prop := ∀ o ∈ ops, o ≠ .pop true
-
-theorem noPopThrow_zipIdx (ops : List Op) (h : NoThrowingPop ops) : NoPopThrow ops.zipIdx := by
-  intro p hp
-  have := List.mem_zipIdx hp
-  exact h p.1 (by obtain ⟨o, i⟩ := p; simp at this; rw [this.2]; exact List.getElem_mem _)
 
 /-- Conservation for one batch: (final contents) + (values returned by successful pops) =
 (initial contents) + (values of successful pushes) as multisets, and every operation of the batch got
